@@ -1,6 +1,7 @@
 // c01 is C01's driver: the cycle-level streams of internal/cycle (cycles, fault cycles, decision cases, the 80
 // status rows) plus the snapshot stream of internal/c01snap (real ClusterInfo.Snapshot over fake clientsets
-// followed by one real allocate action).
+// followed by one real allocate action) and the request stream of internal/c01snap/request.go (the scheduler's reading
+// of a pod's request against k8s.io/component-helpers/resource.PodRequests, plus packing worlds).
 // Usage: c01 -dir D -seed S -n N [-tier quick|thorough] [-prop C01]
 package main
 
@@ -38,8 +39,20 @@ func main() {
 				out.NonTrivial(label)
 			}
 		})
+		if err != nil {
+			return err
+		}
+		out.Stats["rule"] = out.Stats["rule"].(string) + " " + c01snap.Rule
+		// request stream: the scheduler's reading of a pod's request against the Kubernetes rule, plus packing worlds
+		err = c01snap.RequestStream(root, n, n/8, func(term, label string, counts []string) {
+			out.Add(term, label)
+			for _, c := range counts {
+				out.Count(c)
+			}
+			out.NonTrivial(label)
+		})
 		if err == nil {
-			out.Stats["rule"] = out.Stats["rule"].(string) + " " + c01snap.Rule
+			out.Stats["rule"] = out.Stats["rule"].(string) + " " + c01snap.RequestRule
 		}
 		return err
 	}
